@@ -15,7 +15,7 @@ RULE = ("resolve-level plans generated without the planner (loaderlab: response 
         "fetches with DependsOnFetchIDs on an entity / batch fetch. An evaluation is one (plan, fault set) run through resolve.Resolver; it is distinct by "
         "construction and non-trivial when the faults changed the response data relative to the fault-free run.")
 
-KEYS = ["status-ignored-with-data", "taint-filters-independent-fetches", "taint-single-entity-fetch-ignored"]   # nan-accepted, entity-count-ignored, nullable-requires-null-sent: repaired in loader.go
+KEYS = ["status-ignored-with-data", "taint-filters-independent-fetches"]   # taint-single-entity-fetch-ignored: repaired (00d2cc7)   # nan-accepted, entity-count-ignored, nullable-requires-null-sent: repaired in loader.go
 
 
 def classify(case, detail):
@@ -24,9 +24,6 @@ def classify(case, detail):
     clause = detail.split(" ", 1)[0]
     if clause in ("affected_null", "unaffected_equal") and "status-ignored-with-data" in causes:
         return "status-ignored-with-data"
-    # partial-data fault on a single EntityFetch: never tainted (its data path already selected _entities[0])
-    if clause in ("taint_isolated", "requests_subset") and "taint-single-entity-fetch-ignored" in causes:
-        return "taint-single-entity-fetch-ignored"
     # exactly what the dependency-blind filter removes (evaluated by the driver: the data equals the reduced reference)
     if clause == "taint_isolated" and "[taint-filters-independent-fetches]" in detail:
         return "taint-filters-independent-fetches"
@@ -95,7 +92,8 @@ def run(chk, extra_corpus=None):
     ]
     chk.notes += [
         "finding still open: status-ignored-with-data (the status code is a documented fallback in mergeResult); repaired in loader.go and kept as passing "
-        "corpus regressions: nan-accepted, entity-count-ignored, nullable-requires-null-sent (work/c07_fix_*.patch); not reachable by the generator (single provider per field) but proved and replayed: "
+        "corpus regressions: nan-accepted, entity-count-ignored, nullable-requires-null-sent, taint-single-entity-fetch-ignored (work/c07_fix_*.patch; the last one 00d2cc7, "
+        "c07_taint_single_entity_refuted is its historical witness, harness/c07taint its Go regression); open: taint-filters-independent-fetches; not reachable by the generator (single provider per field) but proved and replayed: "
         "c07_response_merge_order_refuted = `harness/bin/c07 probe-null-object x x`",
     ]
     chk.proof_side(extra_dirs=["C02"])
